@@ -46,10 +46,18 @@ def grid_attrs(prog: Program) -> dict[str, Any]:
             seen_limits = True
             out["_limits_expr"] = unparse(st.value)
             continue
+        if isinstance(t, ast.Name) and seen_limits and not any(isinstance(n, ast.Call) and unparse(n.func) not in ("slice", "float", "int") for n in ast.walk(st.value)):
+            # a local temporary between the limits and an attribute (tmp = self.i1 - 1; self.xmax = float(tmp))
+            try:
+                fr.env[t.id] = it.eval(st.value, fr)
+            except Unsupported:
+                pass
+            continue
         if isinstance(t, ast.Attribute) and unparse(t.value) == "self" and seen_limits:
             names = {n.attr for n in ast.walk(st.value) if isinstance(n, ast.Attribute) and unparse(n.value) == "self"}
             known = set(BASE) | set(out)
-            if names and names <= known and not any(isinstance(n, ast.Call) and unparse(n.func) not in ("slice", "float", "int") for n in ast.walk(st.value)):
+            local_ok = all(n.id in fr.env for n in ast.walk(st.value) if isinstance(n, ast.Name) and n.id not in ("self", "slice", "float", "int", "np"))
+            if (names or any(isinstance(n, ast.Name) and n.id in fr.env for n in ast.walk(st.value))) and names <= known and local_ok and not any(isinstance(n, ast.Call) and unparse(n.func) not in ("slice", "float", "int") for n in ast.walk(st.value)):
                 try:
                     v = it.eval(st.value, fr)
                 except Unsupported:
